@@ -73,6 +73,8 @@ class Topo:
 
     @staticmethod
     def is_trigger(conn):
+        if conn.get("deid") == "k":        # child entity of model K: roles swapped
+            return conn.get("dattr") == "mi"
         return conn.get("dattr") in ("ti", "ti2")
 
     @staticmethod
